@@ -1,4 +1,5 @@
 pub mod cli15;
+pub mod cli16;
 pub mod early;
 pub mod refine;
 pub mod regret;
